@@ -106,6 +106,11 @@ class Run(object):
     def __init__(self, pick):
         self.pick = pick                       # role -> index into ROLES[role]
         self.opt = dict((r, ROLES[r][pick[r]]) for r in ROLES)
+        if pick.get("ez"):
+            # the first list option's token z is the empty text: Tor reports the option with one value, which is empty
+            # ("Log=" rather than "Log")
+            n, t, c = self.opt["l1"]
+            self.opt["l1"] = (n, t, dict(c, z=""))
         self.proto = TorControlProtocol()
         self.tr = proto_helpers.StringTransport()
         self.sim = simtor.SimTor(self.proto, self.tr)
